@@ -163,6 +163,24 @@ TEXT["C07"] = dict(
     design_ref="5 (C07), 2.3",
 )
 
+TEXT["C15"] = dict(
+    category="exploration",
+    technique="seeded simulation: director-driven greenlet trees (lifecycle history on the tape), shadow call logs as oracle; foreign-thread greenlet parked on a lock; greenback alternation under seeded Trio",
+    text="A tape-chosen history of spawn / start / switch / finish / throw over up to 5 greenlets with parent chains up to depth 4 and call depth 0-3 (incl. running generators mid-stack); at tape-chosen moments the current greenlet extracts any greenlet: "
+    "suspended -> exactly its shadow call log whoever asks (outsider, ancestor, sibling, descendant), current -> exactly the f_back chain of the caller, unstarted/dead -> nothing, running in another thread -> error and no frames. "
+    "Greenback legs: sync/async alternation depth 0-3 under seeded Trio inspected from outside and inside (bridging frames hidden).",
+    note="Trusted: greenlets switch only from their loop frame; CPython 3.12 only (greenlet/greenback are not available for the other interpreters).",
+    design_ref="5 (C15)",
+)
+TEXT["C04"] = dict(
+    category="exploration",
+    technique="seeded simulation (greenlet world) used as a population of running stacks; snapshot invariant: every drawn (outer, inner, limit) slice equals the documented sub-list of interpreter ground truth",
+    text="Weak fit, said plainly: slicing is a pure function of (stack, outer, inner, limit); no fault or interleaving decides anything. Claimed as an invariant over the states the greenlet simulation reaches (stacks split over 0-4 nested greenlets, dead parents, "
+    "running generators) plus plain thread stacks on 3.9: 8 tape-drawn triples per probe through StackSlice / extract_since / extract_until (int and frame limits) and off-stack anchors.",
+    note="Trusted: ground truth = f_back chain of the calling frame continued at each greenlet parent's gr_frame; sampling of the (anchor, limit, nesting) cells, not their cross product.",
+    design_ref="5 (C04), 6",
+)
+
 PENDING_REASON = "check not built yet in this round (work in progress; see DESIGN.md section 5 for the planned simulation)"
 
 ALL = ["C%02d" % i for i in range(1, 21)]
